@@ -16,6 +16,52 @@ def q8(g):
     return d
 
 
+def marks(w, marks=(0x79,)):
+    """0 and every value with one structural byte (the end-tag 0x79) in one byte position"""
+    return [vlib.le(0, w)] + [vlib.le(m << (8 * k), w) for m in marks for k in range(w)]
+
+
+def mimic_descriptors(g):
+    """Descriptors whose field bytes mimic the structure around them (a payload that ends in 79 00 looks like the end
+    tag that follows it): every field of every kind over {0, 0x79 in each byte position}, each such descriptor as the
+    only, the first and the last child of a template."""
+    ds = []
+    for rw in (False, True):
+        for base in marks(4):
+            for ln in marks(4):
+                ds.append({"t": "Memory32Fixed", "rw": rw, "base": base, "len": ln})
+    for mn, mx, al, ln in itertools.product(marks(2), marks(2), marks(1), marks(1)):
+        ds.append({"t": "IO", "min": mn, "max": mx, "align": al, "len": ln})
+    for num in marks(4):
+        for c, e in itertools.product((False, True), repeat=2):
+            ds.append({"t": "Interrupt", "consumer": c, "edge": e, "low": e, "shared": c, "num": num})
+    for wd, off, addr in itertools.product(marks(1), marks(1), marks(8)):
+        ds.append({"t": "Register", "reg": {"space": "SystemMemory", "width": wd, "offset": off, "access": "ByteAccess", "addr": addr}})
+    for w in (2, 4, 8):
+        vals = sorted({int.from_bytes(bytes(v), "little") for v in marks(w)} | {0x78 << (8 * k) for k in range(w)})
+        for kind in ("memory", "io", "bus"):
+            for lo in vals:
+                for hi in vals:
+                    # range sizes 0x79 << 8k come from (0, 0x79.. - 1): also max one below a marked value
+                    for hi2 in (hi, hi - 1):
+                        if hi2 < lo or hi2 - lo + 1 > (1 << (8 * w)) - 1:
+                            continue
+                        d = {"t": "AddrSpace", "w": w, "kind": kind, "min": vlib.le(lo, w), "max": vlib.le(hi2, w)}
+                        if kind == "memory":
+                            d["cache"], d["rw"] = "Cacheable", True
+                        ds.append(d)
+                        if kind != "bus" and lo == 0:
+                            for tr in marks(w):
+                                ds.append(dict(d, trans=tr))
+    other = {"t": "IO", "min": [1, 2], "max": [3, 4], "align": [5], "len": [6]}
+    progs = []
+    for d in ds:
+        progs.append(amlgen.prog(g, {"t": "ResourceTemplate", "ch": [d]}))
+        progs.append(amlgen.prog(g, {"t": "ResourceTemplate", "ch": [other, d]}))
+        progs.append(amlgen.prog(g, {"t": "ResourceTemplate", "ch": [d, other]}))
+    return progs
+
+
 def run(ctx):
     rng = vlib.Rng(ctx.seed)
     th = ctx.thorough()
@@ -48,6 +94,7 @@ def run(ctx):
         d = schema.equalize(g.descriptor(), rng)
         progs.append(amlgen.prog(g, d))
         progs.append(amlgen.prog(g, {"t": "ResourceTemplate", "ch": [d, schema.equalize(g.descriptor(), rng)]}))
+    progs += mimic_descriptors(g)
     # templates of 0..3 descriptors over all kinds and orders
     for n in range(0, 4):
         for combo in itertools.product(KINDS, repeat=n):
